@@ -10,6 +10,21 @@ COMMON_NOTE = ("Trusted base: TLC 1.8 evaluating the TLA+ specification in /veri
                "assumption of DESIGN 2.5 for the exhaustive part; simulated / random traces go beyond it.")
 
 CHECKS = {
+ "C12": dict(engine="Gcp", design="3/C12",
+   text=("Two specifications.  Gcp.tla (exact integers): objective = weighted sum of the element loss over all entries, "
+         "factor gradients by the chain rule, the sampled estimator as a weighted sum over an arbitrary sample list; "
+         "TLC proves on every generated instance that the chain-rule gradient is the exact central-difference "
+         "derivative for the quadratic losses and that the estimator on every entry with unit weights equals the exact "
+         "evaluation, enumerates models / data / weight arrays / sample lists for orders 2-4 and validates the real "
+         "evaluate() / estimate() / handle values.  Losses.tla (symbolic): each of the nine smooth built-in losses and "
+         "its gradient as sums of terms with rational coefficients over a small basis (powers, log, exp, log(exp+1), "
+         "sigmoid); TLC differentiates the loss term set symbolically and checks Grad = dLoss/dm exactly; the harness "
+         "interprets both term sets numerically on a grid inside the loss's domain and TLC validates the observed "
+         "agreement of the implementation's handle pair with them."),
+   technique="TLA+ specs Gcp (exact integer objective/gradient/estimator) and Losses (symbolic differentiation of term sets); TLC law checking + generation; replay; TLC trace validation",
+   note=("Element level: the identity Grad = dLoss/dm is symbolic and exact in TLC; the binding of the implementation's "
+         "transcendental handles to the term sets is numerical (grid, relative tolerance 1e-9) and is performed by the "
+         "harness's interpreter of the term language (trusted, ~25 lines).")),
  "C08": dict(engine="Kruskal", design="3/C08",
    text=("Kruskal.tla gives, for every re-parameterisation, the array the result must denote (exact, from the integer "
          "parameters), the exact resulting parameters where only parameters are moved or multiplied (arrange by "
